@@ -1,6 +1,25 @@
-import DdsModel.Drv.Util
-namespace Dds.Drv
+/- Driver section of C07 (the memory limit bounds allocation).
 
-def runC07 (_line : String) : String := "not-modelled"
+case lines:  full <fmt> <ch> <pr> <w> <h> <lim>   |   rect <fmt> <ch> <pr> <W> <H> <x> <y> <w> <h> <lim>
+run on a fault-free stream that is long enough.
+result: `<res> lim=<limit used> need=<total of the allocation requests of the call> granted=<bytes handed to the allocator>` -/
+import DdsModel.Drv.C06
+namespace Dds.Drv
+open Dds Dds.Stream
+
+def runC07 (line : String) : String :=
+  match parseCall (toks line) with
+  | none => "bad-case"
+  | some (f, c, call, rest) =>
+    match rest with
+    | [lim] =>
+      let p := plan f c call
+      match limitOf lim (planNeed p) with
+      | none => "bad-case"
+      | some limit =>
+        let e : Env := { len := U64 - 1 }
+        let (r, st) := run e [] p 0 limit
+        s!"{resName r} lim={limit} need={planNeed p} granted={st.calls.foldl (· + ·) 0}"
+    | _ => "bad-case"
 
 end Dds.Drv
